@@ -1,6 +1,7 @@
 # C14 Per-tick bandwidth budget: check-then-deduct per emission, one budget, configuration order
 import re
 from sa.rules import *
+import rules.wave3 as W3
 RC = "remote_connection::RenetClient"
 
 def budget_stores(t, f):
@@ -83,7 +84,7 @@ def rules(t):
     bl = sorted(set(bl))
     if len(bl) > 1: r.bad("threading-local", calls[0], "channels receive references to different budget variables")
     if bl:
-        ds = gp.defs().get(bl[0], [])
+        ds = gp.defs1(bl[0])
         if len(ds) != 1 or "available_bytes_per_tick" not in fmt(gp._origin_of_def(ds[0][2], 0)): r.bad("init", None, "tick budget is not initialised exactly once from available_bytes_per_tick")
     else: r.bad("local", None, "budget local not found")
     fc = t.fn("RenetClient::from_channels")
@@ -125,4 +126,5 @@ def rules(t):
     for s in t.effects("channel_send_order", GROW | SHRINK):
         if not s.fn.path.endswith("::from_channels"): r.bad(f"{s.fn.path}|order-write", s, "channel_send_order changed after construction")
     out.append(r)
+    out.append(W3.budget_fail_stays(t, "C14.d", ('unreliable', 'reliable')))
     return out
